@@ -1,5 +1,7 @@
 import ChythonModel.Proofs.C03Front
 import ChythonModel.Proofs.C03Spec
+import ChythonModel.Proofs.C03Reject
+import ChythonModel.Proofs.C03TokParen
 /-!
 # C03 — SMILES reader builds exactly the molecule the text denotes, rejects the rest
 
@@ -99,13 +101,64 @@ example : (denote (·.1) (⟨(true, { element := [67] }),
         (.side .dot (false, { element := [67] }) .done
           (.next (.dir true) (false, { element := [78] }) .done))⟩ : Chain A)).bonds = [(1, 0, 2), (3, 0, 1)] := rfl
 
-/-- Full statement of the accept/reject clause on the token level: the parser accepts a token sequence **iff** it is
-    the printing of a syntax tree (and then builds its denotation). The "only if" half is false for the forms the
-    reader accepts on purpose outside the grammar — a leading branch `(C)C` — see `Findings/C03.lean`; it is not
-    proved here (the reference reader of the harness judges that direction on every generated string). -/
+/-- Full statement of the accept/reject clause on the token level (no ring-closure tokens): the parser accepts a
+    token sequence **iff** it is the printing of a syntax tree (and then builds its denotation). False as it stands:
+    the reader accepts a leading branch `(C)C` on purpose, and `parser` itself relies on the tokenizer to refuse `((`
+    and `()` — witnesses in `Findings/C03.lean`. -/
 def AcceptIffInGrammar : Prop :=
-  ∀ (strong : Bool) (toks : List Tok), (∀ t ∈ toks, match t with | .cyc _ => False | .other _ _ => False | _ => True) →
+  ∀ (strong : Bool) (toks : List Tok), (∀ t ∈ toks, coreTok t = true) →
     ((∃ st, parse strong toks = .ok st) ↔ ∃ c : Chain A, toks = toToks (print c))
+
+/-- The proved part: exactly the two excluded classes are taken out — the sequence starts with an atom (not with the
+    leading branch the reader tolerates) and contains no `((` / `()` (which `_tokenize` never emits: it raises
+    IncorrectSmiles for both). Then acceptance by `parser` is equivalent to being in the grammar, and by
+    `accept_sound_core` the graph built is the denoted one. So on this sub-language nothing outside the grammar yields
+    a molecule. -/
+theorem accept_iff_in_grammar_partial (strong : Bool) (ty : Nat) (a : AtomTok) (rest : List Tok)
+    (hcore : ∀ t ∈ Tok.atom ty a :: rest, coreTok t = true) (hneo : noEmptyOpen (Tok.atom ty a :: rest) = true) :
+    (∃ st, parse strong (Tok.atom ty a :: rest) = .ok st) ↔ ∃ c : Chain A, Tok.atom ty a :: rest = toToks (print c) := by
+  constructor
+  · rintro ⟨st, h⟩
+    exact parse_unprint strong ty a rest st hcore hneo h
+  · rintro ⟨c, hc⟩
+    obtain ⟨st, h, _⟩ := parse_print strong c
+    exact ⟨st, by rw [hc]; exact h⟩
+
+/-- The same on the string level, with the `((` / `()` hypothesis discharged by the tokenizer: for every string whose
+    token list starts with an atom and uses no ring-closure digit, `parser ∘ smiles_tokenize` accepts **iff** the token
+    list is the printing of a syntax tree of the grammar. (`_tokenize` never emits `(` directly followed by a
+    parenthesis, bracket atoms parse to type 0/8 only, query tokens never get through.) -/
+theorem accept_iff_in_grammar_strings (strong : Bool) (s : Str) (ty : Nat) (a : AtomTok) (rest : List Tok)
+    (htok : smilesTokenize s = .ok (Tok.atom ty a :: rest))
+    (hnc : ∀ t ∈ Tok.atom ty a :: rest, ∀ n, t ≠ Tok.cyc n) :
+    (∃ st, parse strong (Tok.atom ty a :: rest) = .ok st) ↔ ∃ c : Chain A, Tok.atom ty a :: rest = toToks (print c) := by
+  unfold smilesTokenize at htok
+  cases hraw : tokenizeRaw s with
+  | error e => rw [hraw] at htok; cases htok
+  | ok raw =>
+    rw [hraw] at htok
+    dsimp only at htok
+    have hshaped := tokenizeRaw_good s
+    rw [hraw] at hshaped
+    have hno : ∀ x ∈ Tok.atom ty a :: rest, noOther x = true := by
+      rcases convToks_good raw hshaped with ⟨l, hl, _, hall⟩ | ⟨e, he, _⟩
+      · rw [hl] at htok; cases htok; exact hall
+      · rw [he] at htok; cases htok
+    have hneo := convToks_neo raw _ htok (tokenizeRaw_fwdNEO s raw hraw)
+    have hcore : ∀ t ∈ Tok.atom ty a :: rest, coreTok t = true :=
+      fun t ht => convToks_core raw _ htok t ht (hno t ht) (hnc t ht)
+    exact accept_iff_in_grammar_partial strong ty a rest hcore hneo
+
+/-- non-trivial instance of the hypotheses: `C(=O)N` -/
+example : smilesTokenize [67, 40, 61, 79, 41, 78] = .ok [.atom 0 { element := [67] }, .lpar, .bond 2,
+    .atom 0 { element := [79] }, .rpar, .atom 0 { element := [78] }] := rfl
+
+/-- the hypotheses are satisfiable by a non-trivial accepted instance (`C(=O)N`) and by a rejected one (`C(=)N`) -/
+example : (∃ st, parse false [.atom 0 { element := [67] }, .lpar, .bond 2, .atom 0 { element := [79] }, .rpar,
+    .atom 0 { element := [78] }] = .ok st) := ⟨_, rfl⟩
+example : noEmptyOpen [.atom 0 { element := [67] }, .lpar, .bond 2, .rpar, .atom 0 { element := [78] }] = true ∧
+    parse false [.atom 0 { element := [67] }, .lpar, .bond 2, .rpar, .atom 0 { element := [78] }] =
+      .error (.lib "IncorrectSmiles" "bond before closure") := ⟨rfl, rfl⟩
 
 /-! ## CXSMILES / reaction front end -/
 
